@@ -22,7 +22,7 @@ use concordium_base::{
         v1::{
             anchor::{
                 verify_presentation_with_request_anchor, ContextLabel, CredentialValidityType, IdentityCredentialType, IdentityProviderDid, LabeledContextProperty, PresentationVerificationResult,
-                RequestedIdentitySubjectClaims, RequestedStatement, RequestedSubjectClaims, UnfilledContextInformation, VerifiablePresentationRequestV1, VerifiablePresentationV1, VerificationContext,
+                RequestedIdentitySubjectClaims, RequestedStatement, VerificationAuditAnchor, VerificationAuditRecord, VerificationRequestAnchor, RequestedSubjectClaims, UnfilledContextInformation, VerifiablePresentationRequestV1, VerifiablePresentationV1, VerificationContext,
                 VerificationMaterialWithValidity, VerificationRequest, VerificationRequestAnchorAndBlockHash, VerificationRequestData,
             },
             AccountBasedSubjectClaims, AccountCredentialVerificationMaterial, AtomicStatementV1, ContextInformation, ContextProperty, CredentialV1, CredentialVerificationMaterial,
@@ -364,6 +364,53 @@ pub fn main(args: &[String]) -> i32 {
                     Err(e) => return fail(what("binary encoding of a presentation decodes"), J::Null, json!(e.to_string())),
                 }
                 *stats.entry("roundtrip".into()).or_default() += 1;
+            }
+            // the audit record of a verified exchange: its anchor names exactly (id, request, presentation) - PresentationV1!AuditParts
+            if got == "Verified" && idx % 4 == 0 {
+                use concordium_base::common::cbor::{cbor_decode, cbor_encode};
+                let record = VerificationAuditRecord::new("exchange-1".to_string(), request.clone(), pres.clone());
+                let h = record.to_anchor(None).hash;
+                let mut other_request = request.clone();
+                other_request.anchor_transaction_hash = TransactionHash::from([6u8; 32]);
+                let mut other_pres = pres.clone();
+                other_pres.linking_proof.created_at += chrono::TimeDelta::seconds(1);
+                let variants = [
+                    ("id", VerificationAuditRecord::new("exchange-2".to_string(), request.clone(), pres.clone())),
+                    ("request", VerificationAuditRecord::new("exchange-1".to_string(), other_request, pres.clone())),
+                    ("presentation", VerificationAuditRecord::new("exchange-1".to_string(), request.clone(), other_pres)),
+                ];
+                for (part, r2) in variants.iter() {
+                    if r2.hash() == h {
+                        return fail(what(&format!("audit records differing in their {} have different anchors", part)), J::Null, J::Null);
+                    }
+                }
+                if VerificationAuditRecord::new("exchange-1".to_string(), request.clone(), pres.clone()).hash() != h {
+                    return fail(what("the audit anchor is a function of the record"), J::Null, J::Null);
+                }
+                let a = record.to_anchor(None);
+                match cbor_encode(&a).ok().and_then(|b| cbor_decode::<VerificationAuditAnchor>(&b).ok()) {
+                    Some(a2) if a2 == a => {}
+                    _ => return fail(what("the audit anchor survives its CBOR encoding"), J::Null, J::Null),
+                }
+                let ra = &anchor.verification_request_anchor;
+                match cbor_encode(ra).ok().and_then(|b| cbor_decode::<VerificationRequestAnchor>(&b).ok()) {
+                    Some(a2) if a2 == *ra => {}
+                    _ => return fail(what("the request anchor survives its CBOR encoding"), J::Null, J::Null),
+                }
+                match serde_json::to_string(&record).ok().and_then(|js| serde_json::from_str::<VerificationAuditRecord>(&js).ok()) {
+                    Some(r2) if r2 == record => {}
+                    _ => return fail(what("the audit record survives its JSON encoding"), J::Null, J::Null),
+                }
+                match serde_json::to_string(&request).ok().and_then(|js| serde_json::from_str::<VerificationRequest>(&js).ok()) {
+                    Some(r2) if r2 == request => {}
+                    _ => return fail(what("the verification request survives its JSON encoding"), J::Null, J::Null),
+                }
+                let rb = concordium_base::common::to_bytes(&request);
+                match concordium_base::common::from_bytes::<VerificationRequest, _>(&mut std::io::Cursor::new(&rb)) {
+                    Ok(r2) if r2 == request => {}
+                    _ => return fail(what("the verification request survives its binary encoding"), J::Null, J::Null),
+                }
+                *stats.entry("audit".into()).or_default() += 1;
             }
         }
         Ok(())
